@@ -1,33 +1,44 @@
 package main
 
 // C02: correspondence driver for the schedule token contract.
-// mode=seq : one caller, random trees (nested composites, zero-token parts, unlimited parts in any
-//            position) x random Start/Next/Left sequences on the REAL schedules. The root is started at
-//            T0 = (real now - 10h), so every time is a deterministic offset from T0 and an unlimited part
-//            is "finished" or "unfinished" with a margin of hours (durations are <= minutes or = 20h).
-// mode=conc: see conc.go (controlled interleavings through the verif yield points).
+//
+// mode=seq    one caller: random trees (nested composites, zero-token parts, unlimited parts in any position,
+//             instance_step nodes, 0/1-child composites) x random Start/Next/Left sequences on the REAL schedules,
+//             optionally through coreutil.NewCallbackOnFinishSchedule (cb=1). Started cases: the root is started at
+//             T0 = (real now - 10h), so every time is a deterministic offset from T0 and an unlimited part is finished /
+//             live / not begun with a margin of minutes to hours. Unstarted cases (no S op: the engine's case) start
+//             at the first Next; all their times lie within a minute after T0+10h and print as NOW. Timed cases
+//             (op A<ns>) let an unlimited part finish DURING the case: phase 1 must end within 150 ms (else the
+//             observation is INCONCLUSIVE = skipped), then the driver sleeps past the part's end.
+// mode=conc   see conc.go (controlled interleavings through the verif yield points; children may be nested composites,
+//             taken as atomic objects: yields inside them are suppressed).
+// mode=stress see stress.go (free-running goroutines on nested trees; every result is checked against the flat spec).
 
 import (
 	"fmt"
 	"math/rand"
 	"strconv"
 	"strings"
+	"sync/atomic"
 	"time"
 
 	"verifharness/drv"
 
 	"github.com/yandex/pandora/core"
+	"github.com/yandex/pandora/core/coreutil"
 	"github.com/yandex/pandora/core/schedule"
 )
 
 const tenHours = int64(10 * time.Hour)
+const twentyHours = int64(20 * time.Hour)
 
 type node struct {
-	kind string // F U C
+	kind string // F U C I
 	ctor string
 	dur  int64
 	offs []int64
 	kids []*node
+	is   [4]int64 // instance_step: from, to, step, stepDuration
 }
 
 func (n *node) String() string {
@@ -43,6 +54,8 @@ func (n *node) String() string {
 		return fmt.Sprintf("F%d[%s]{%s}", n.dur, sb.String(), n.ctor)
 	case "U":
 		return fmt.Sprintf("U%d", n.dur)
+	case "I":
+		return fmt.Sprintf("I%d:%d:%d:%d", n.is[0], n.is[1], n.is[2], n.is[3])
 	default:
 		var parts []string
 		for _, k := range n.kids {
@@ -58,6 +71,12 @@ func (n *node) tokens() int {
 		return len(n.offs)
 	case "U":
 		return 3
+	case "I":
+		t := int(n.is[0])
+		for i := n.is[0] + n.is[2]; i <= n.is[1]; i += n.is[2] {
+			t += int(n.is[2])
+		}
+		return t
 	}
 	t := 0
 	for _, k := range n.kids {
@@ -81,26 +100,9 @@ func ctorLeaf(ctor string) (core.Schedule, int64) {
 	panic("ctor " + ctor)
 }
 
-func genLeaf(r *rand.Rand) *node {
-	var ctor string
-	switch r.Intn(8) {
-	case 0:
-		ctor = "once:0"
-	case 1, 2:
-		ctor = fmt.Sprintf("once:%d", 1+r.Intn(4))
-	case 3:
-		ctor = fmt.Sprintf("const:0:%d", []int64{1e9, 5e8, 2e9}[r.Intn(3)])
-	case 4, 5:
-		ctor = fmt.Sprintf("const:%d:%d", []int{1, 2, 3, 4, 5}[r.Intn(5)], []int64{1e9, 5e8, 2e9}[r.Intn(3)])
-	case 6:
-		ctor = fmt.Sprintf("line:%d:%d:%d", r.Intn(4), 1+r.Intn(5), []int64{1e9, 2e9}[r.Intn(2)])
-	default:
-		d := int64(20 * time.Hour)
-		if r.Intn(2) == 0 {
-			d = []int64{1e6, 1e9, 60e9}[r.Intn(3)]
-		}
-		return &node{kind: "U", dur: d}
-	}
+// mkFin enumerates the offsets of a real leaf constructor (the model is told what the leaf hands out; what a leaf
+// hands out is C01's subject, how it is handed out is C02's).
+func mkFin(ctor string) *node {
 	n := &node{kind: "F", ctor: ctor}
 	s, dur := ctorLeaf(ctor)
 	n.dur = dur
@@ -116,9 +118,49 @@ func genLeaf(r *rand.Rand) *node {
 	return n
 }
 
-func genTree(r *rand.Rand, depth int) *node {
+type genOpt struct {
+	unstarted bool // no far-future leaves, unlimited parts only of 20h
+	noUnl     bool
+}
+
+func genLeaf(r *rand.Rand, o genOpt) *node {
+	switch r.Intn(10) {
+	case 0:
+		return mkFin("once:0")
+	case 1, 2:
+		return mkFin(fmt.Sprintf("once:%d", 1+r.Intn(4)))
+	case 3:
+		return mkFin(fmt.Sprintf("const:0:%d", []int64{1e9, 5e8, 2e9}[r.Intn(3)]))
+	case 4, 5:
+		return mkFin(fmt.Sprintf("const:%d:%d", []int{1, 2, 3, 4, 5}[r.Intn(5)], []int64{1e9, 5e8, 2e9}[r.Intn(3)]))
+	case 6:
+		return mkFin(fmt.Sprintf("line:%d:%d:%d", r.Intn(4), 1+r.Intn(5), []int64{1e9, 2e9}[r.Intn(2)]))
+	case 7:
+		if r.Intn(2) == 0 {
+			f := int64(r.Intn(3))
+			st := int64(1 + r.Intn(3))
+			return &node{kind: "I", is: [4]int64{f, f + int64(r.Intn(7)), st, []int64{1e9, 5e8}[r.Intn(2)]}}
+		}
+		if !o.unstarted && r.Intn(3) == 0 {
+			// tokens far after the clock reading (offsets k*10000s up to 20h; the clock reads 10h)
+			return mkFin("const:0.0001:72000000000000")
+		}
+		return mkFin(fmt.Sprintf("once:%d", 1+r.Intn(2)))
+	default:
+		if o.noUnl {
+			return mkFin(fmt.Sprintf("once:%d", r.Intn(3)))
+		}
+		d := twentyHours
+		if !o.unstarted && r.Intn(2) == 0 {
+			d = []int64{1e6, 1e9, 60e9}[r.Intn(3)]
+		}
+		return &node{kind: "U", dur: d}
+	}
+}
+
+func genTree(r *rand.Rand, depth int, o genOpt) *node {
 	if depth == 0 || r.Intn(3) == 0 {
-		return genLeaf(r)
+		return genLeaf(r, o)
 	}
 	n := &node{kind: "C"}
 	k := r.Intn(5)
@@ -128,38 +170,130 @@ func genTree(r *rand.Rand, depth int) *node {
 		k += 2
 	}
 	for i := 0; i < k; i++ {
-		n.kids = append(n.kids, genTree(r, depth-1))
+		n.kids = append(n.kids, genTree(r, depth-1, o))
 	}
 	return n
 }
 
+func randOps(r *rand.Rand, n int, pl int) []string {
+	var ops []string
+	for j := 0; j < n; j++ {
+		if r.Intn(4) < pl {
+			ops = append(ops, "L")
+		} else {
+			ops = append(ops, "N")
+		}
+	}
+	return ops
+}
+
 func gen(r *rand.Rand, tier string) []string {
-	n := 2500
+	n := 1800
 	if tier == "thorough" {
-		n = 40000
+		n = 100000
 	}
 	var out []string
 	for i := 0; i < n; i++ {
-		t := genTree(r, 1+r.Intn(3))
+		o := genOpt{unstarted: r.Intn(4) == 0}
+		t := genTree(r, 1+r.Intn(3), o)
 		if t.kind != "C" && r.Intn(4) != 0 {
-			t = &node{kind: "C", kids: []*node{t, genTree(r, 1)}}
+			t = &node{kind: "C", kids: []*node{t, genTree(r, 1, o)}}
 		}
 		nops := t.tokens() + 2 + r.Intn(6)
-		ops := []string{"S"}
-		pl := r.Intn(4) // how often Left
-		for j := 0; j < nops; j++ {
-			if r.Intn(4) < pl {
+		if nops > 60 {
+			nops = 60
+		}
+		body := randOps(r, nops, r.Intn(4))
+		var ops []string
+		switch {
+		case o.unstarted:
+			// Left before anything, then the first Next starts the schedule
+			if r.Intn(2) == 0 {
 				ops = append(ops, "L")
-			} else {
-				ops = append(ops, "N")
 			}
+			ops = append(ops, body...)
+			if r.Intn(6) == 0 {
+				ops = append(ops, "S") // Start after Next: panics
+			}
+		case r.Intn(12) == 0:
+			ops = append([]string{"S", "S"}, body...) // double start
+		case r.Intn(12) == 0:
+			ops = append([]string{"L", "S"}, body...)
+		default:
+			ops = append([]string{"S"}, body...)
 		}
 		if r.Intn(10) == 0 {
 			ops = append(ops, "L", "N", "L")
 		}
-		out = append(out, fmt.Sprintf("mode=seq now=%d tree=%s ops=%s", tenHours, t.String(), strings.Join(ops, ",")))
+		line := fmt.Sprintf("mode=seq now=%d tree=%s ops=%s", tenHours, t.String(), strings.Join(ops, ","))
+		if r.Intn(4) == 0 {
+			line += " cb=1"
+		}
+		out = append(out, line)
 	}
+	out = append(out, genTimed(r, tier)...)
 	out = append(out, genConc(r, tier)...)
+	out = append(out, genStress(r, tier)...)
+	return out
+}
+
+// genTimed: an unlimited part that is live in phase 1 and finished in phase 2 (it ends 300 ms after the clock
+// reading of the first op; phase 2 begins at least 600 ms after it, the model's clock then reads +1 s).
+func genTimed(r *rand.Rand, tier string) []string {
+	n := 64
+	if tier == "thorough" {
+		n = 1200
+	}
+	var out []string
+	for i := 0; i < n; i++ {
+		t := &node{kind: "C"}
+		pre := 0
+		if r.Intn(2) == 0 {
+			k := mkFin(fmt.Sprintf("once:%d", r.Intn(3)))
+			pre = len(k.offs)
+			t.kids = append(t.kids, k)
+		}
+		// started: the root is started 10 h ago and the part ends 300 ms from now; unstarted: the first Next starts
+		// the schedule now and the part (only zero-duration parts before it) lasts 300 ms
+		unstarted := r.Intn(3) == 0
+		live := &node{kind: "U", dur: tenHours + int64(300*time.Millisecond)}
+		if unstarted {
+			live.dur = int64(300 * time.Millisecond)
+		}
+		if r.Intn(3) == 0 {
+			t.kids = append(t.kids, &node{kind: "C", kids: []*node{mkFin("once:0"), live}})
+		} else {
+			t.kids = append(t.kids, live)
+		}
+		for j, m := 0, 1+r.Intn(3); j < m; j++ {
+			switch r.Intn(5) {
+			case 0:
+				t.kids = append(t.kids, &node{kind: "U", dur: 1e6})
+			case 1:
+				t.kids = append(t.kids, &node{kind: "C", kids: []*node{mkFin(fmt.Sprintf("once:%d", r.Intn(3))), mkFin("once:1")}})
+			case 2:
+				if j == m-1 {
+					t.kids = append(t.kids, &node{kind: "U", dur: twentyHours})
+					break
+				}
+				fallthrough
+			default:
+				t.kids = append(t.kids, mkFin(fmt.Sprintf("once:%d", r.Intn(4))))
+			}
+		}
+		ops := []string{"S"}
+		if unstarted {
+			ops = []string{"N"}
+		}
+		ops = append(ops, randOps(r, pre+1+r.Intn(4), 1+r.Intn(2))...)
+		ops = append(ops, "A1000000000")
+		ops = append(ops, randOps(r, 3+r.Intn(8), 1+r.Intn(2))...)
+		line := fmt.Sprintf("mode=seq now=%d tree=%s ops=%s", tenHours, t.String(), strings.Join(ops, ","))
+		if r.Intn(3) == 0 {
+			line += " cb=1"
+		}
+		out = append(out, line)
+	}
 	return out
 }
 
@@ -186,6 +320,18 @@ func parseTree(s string) (*node, string) {
 		n := &node{kind: "U"}
 		n.dur, _ = strconv.ParseInt(s[1:i], 10, 64)
 		return n, s[i:]
+	case strings.HasPrefix(s, "I"):
+		i := 1
+		for i < len(s) && ((s[i] >= '0' && s[i] <= '9') || s[i] == ':') {
+			i++
+		}
+		n := &node{kind: "I"}
+		for k, p := range strings.Split(s[1:i], ":") {
+			if k < 4 {
+				n.is[k], _ = strconv.ParseInt(p, 10, 64)
+			}
+		}
+		return n, s[i:]
 	case strings.HasPrefix(s, "C("):
 		n := &node{kind: "C"}
 		rest := s[2:]
@@ -205,17 +351,25 @@ func parseTree(s string) (*node, string) {
 	panic("tree syntax: " + s)
 }
 
-func buildReal(n *node) core.Schedule {
+// buildReal builds the REAL schedule for a tree. With atomicKids the children of the root are wrapped so that
+// scheduling points inside them are suppressed (mode=conc: children are atomic objects).
+func buildReal(n *node, atomicKids bool) core.Schedule {
 	switch n.kind {
 	case "F":
 		s, _ := ctorLeaf(n.ctor)
 		return s
 	case "U":
 		return schedule.NewUnlimited(time.Duration(n.dur))
+	case "I":
+		return schedule.NewInstanceStep(n.is[0], n.is[1], n.is[2], time.Duration(n.is[3]))
 	}
 	var kids []core.Schedule
 	for _, k := range n.kids {
-		kids = append(kids, buildReal(k))
+		c := buildReal(k, false)
+		if atomicKids && (k.kind == "C" || k.kind == "I") {
+			c = &noYield{c}
+		}
+		kids = append(kids, c)
 	}
 	return schedule.NewComposite(kids...)
 }
@@ -223,7 +377,7 @@ func buildReal(n *node) core.Schedule {
 func fmtT(t0 time.Time, tx time.Time) string {
 	off := int64(tx.Sub(t0))
 	d := off - tenHours
-	if d >= 0 && d < int64(time.Minute) {
+	if d >= 0 && d < int64(time.Hour) {
 		return "NOW"
 	}
 	return strconv.FormatInt(off, 10)
@@ -231,32 +385,51 @@ func fmtT(t0 time.Time, tx time.Time) string {
 
 func runSeq(m map[string]string) (obs string) {
 	var res []string
+	var cbCalls atomic.Int64
+	cb := m["cb"] == "1"
+	finish := func() string {
+		if cb {
+			res = append(res, fmt.Sprintf("CB:%d", cbCalls.Load()))
+		}
+		return strings.Join(res, ";")
+	}
 	defer func() {
 		if r := recover(); r != nil {
 			res = append(res, "P:"+drv.Clean(fmt.Sprint(r)))
-			obs = strings.Join(res, ";")
+			obs = finish()
 		}
 	}()
-	t0 := time.Now().Add(-time.Duration(tenHours))
+	tstart := time.Now()
+	t0 := tstart.Add(-time.Duration(tenHours))
 	tree, _ := parseTree(m["tree"])
-	s := buildReal(tree)
+	s := buildReal(tree, false)
+	if cb {
+		s = coreutil.NewCallbackOnFinishSchedule(s, func() { cbCalls.Add(1) })
+	}
 	for _, op := range strings.Split(m["ops"], ",") {
-		switch op {
-		case "S":
+		switch {
+		case op == "S":
 			s.Start(t0)
 			res = append(res, "S")
-		case "N":
+		case op == "N":
 			tx, ok := s.Next()
 			b := 0
 			if ok {
 				b = 1
 			}
 			res = append(res, fmt.Sprintf("N:%s:%d", fmtT(t0, tx), b))
-		case "L":
+		case op == "L":
 			res = append(res, fmt.Sprintf("L:%d", s.Left()))
+		case strings.HasPrefix(op, "A"):
+			// end of phase 1: it must have fitted into the first half of the live part's last 300 ms
+			if time.Since(tstart) > 150*time.Millisecond {
+				return "INCONCLUSIVE"
+			}
+			time.Sleep(time.Until(tstart.Add(600 * time.Millisecond)))
+			res = append(res, "A")
 		}
 	}
-	return strings.Join(res, ";")
+	return finish()
 }
 
 func run(input string) string {
@@ -264,6 +437,8 @@ func run(input string) string {
 	switch m["mode"] {
 	case "conc":
 		return runConc(m)
+	case "stress":
+		return runStress(m)
 	default:
 		return runSeq(m)
 	}
@@ -277,20 +452,29 @@ func main() {
 		Class: func(in, obs string) string {
 			m := drv.KV(in)
 			c := m["mode"]
+			if m["start"] == "0" || (m["mode"] == "seq" && !strings.Contains(m["ops"], "S")) {
+				c += "/unstarted"
+			}
 			if strings.Contains(m["tree"], "U") {
 				c += "/unlimited"
 			}
 			if strings.Count(m["tree"], "C(") > 1 {
 				c += "/nested"
 			}
-			if strings.Contains(m["tree"], "[]") {
-				c += "/zero-token-part"
+			if strings.Contains(m["tree"], "I") {
+				c += "/instance_step"
+			}
+			if strings.Contains(m["ops"], "A") {
+				c += "/timed"
+			}
+			if m["cb"] == "1" {
+				c += "/callback"
 			}
 			if strings.Contains(obs, "P:") {
 				c += "/panic"
 			}
 			return c
 		},
-		Rule: "random schedule trees (depth<=3, <=6 children, once/const/line leaves incl. zero-token parts, unlimited parts finished/unfinished by hours of margin, 0- and 1-child composites) x random Start/Next/Left sequences; conc: 2-3 goroutines released one atomic section at a time in PRNG-chosen (quick) or exhaustively enumerated (thorough) orders through the verif yield points. distinct = distinct input line; all are non-trivial",
+		Rule: "seq: random schedule trees (depth<=3, <=6 children, once/const/line leaves incl. zero-token parts and far-future tokens, unlimited parts finished/live/not-begun by minutes to hours of margin, instance_step nodes, 0- and 1-child composites) x random Start/Next/Left sequences (started, unstarted = started by the first Next, double start, Start after Next), a quarter through the onFinish callback wrapper; timed: an unlimited part finishes between two phases of the case; conc: 2-3 goroutines released one atomic section at a time in PRNG-chosen (quick) or exhaustively enumerated (thorough) orders through the verif yield points, children may be nested composites, started and unstarted; stress: 2-8 free-running goroutines on nested trees, every Next/Left result checked for linearizability against the flat spec. distinct = distinct input line; all are non-trivial",
 	})
 }
